@@ -8,6 +8,7 @@ VARIABLES l, bad, free
 vars == <<l, bad, free>>
 JudgeLocate(e) == /\ e.out.k = "ok"
                   /\ e.out.reader = Locate(e.args.file)
+                  /\ e.out.reader_chunked = Locate(e.args.file)      \* the same through a source that returns short reads
                   /\ e.out.slice = Locate(e.args.file)
                   /\ e.out.view = Locate(e.args.file)
 JudgeDataUrl(e) ==
